@@ -818,7 +818,9 @@ func (h *harness) genDDL(rt *rapid.T, t *table, later *[]index) *stmt {
 		}
 		var cand []col
 		for _, c := range t.cols {
-			if indexable(c) && !(len(t.pk) == 1 && t.isPK(c.id)) {
+			// key columns stay out of secondary indexes: the planner prefers such an index for key
+			// equality and its in-transaction scans are stale (C11 known finding K11)
+			if indexable(c) && !t.isPK(c.id) {
 				cand = append(cand, c)
 			}
 		}
